@@ -175,6 +175,21 @@ def digest(line):
     return hashlib.blake2b(line.encode(), digest_size=8).digest()
 
 
+def nontrivial(line):
+    """Is this transcript record a non-trivial case?  Editor-step records (`ed <op> | pre | dict | answers => ok | post | ret |
+    dict'`) are trivial when the operation left the editor snapshot exactly as it was (an ignored key, a no-op call); every
+    other record kind is one computed case of a pure function or one step with its own input and counts as non-trivial."""
+    if line.startswith("ed "):
+        try:
+            left, right = line.split(" => ", 1)
+            pre = left.split(" | ")[1]
+            rs = right.split(" | ")
+            return not (rs[0].startswith("ok") and len(rs) > 1 and rs[1] == pre)
+        except Exception:
+            return True
+    return True
+
+
 def analyse(prop, cfg, results):
     """Collect counts, stats, oracle verdicts, DIFF/SKIP lines (restricted to the property's scope)."""
     scope = cfg.get("scope", lambda comp, fn: True)
@@ -205,7 +220,8 @@ def analyse(prop, cfg, results):
                     a["records"] += 1
                     if len(toks) >= 2 and scope(toks[0], toks[1]):
                         a["in_scope"] += 1
-                        a["distinct"].add(digest(line))
+                        if nontrivial(line):
+                            a["distinct"].add(digest(line))
                         key = toks[0] + " " + toks[1]
                         a["by_fn"][key] = a["by_fn"].get(key, 0) + 1
                         if len(a["samples"]) < 6 and a["by_fn"][key] == 1:
@@ -396,7 +412,9 @@ def main(argv):
             "theorems": audit.get("theorems") or [],
             "evaluations": a["in_scope"],
             "distinct_nontrivial": len(a["distinct"]),
-            "rule": cfg.get("rule", "one evaluation = one transcript record of the implementation recomputed by the model; distinct = distinct record text"),
+            "rule": cfg.get("rule", "one evaluation = one transcript record of the implementation recomputed by the model; distinct = distinct record text")
+                    + " [distinct_nontrivial counts DISTINCT record texts; an editor-step record is counted only if the operation changed"
+                      " the editor snapshot (ignored keys / no-op calls are evaluations but trivial)]",
             "exhaustive": bool(cfg.get("exhaustive", False)),
             "traces_validated_against_impl": a["in_scope"] - len(a["diffs"]) - a["skips"],
             "model_vs_impl_diffs_in_scope": len(a["diffs"]),
